@@ -118,7 +118,15 @@ def gen_case(rng, kind='valid'):
     if kind == 'gain_in_voa':
         # gain mode, input VOAs on amplifiers whose gain is auto-designed, total powers close to p_max downstream
         sp['power_mode'] = False
-        case['si'].update({'power_dbm': rng.choice([1, 2, 2.5]), 'f_min': 191.275e12, 'f_max': 196.125e12})
+        case['si'].update({'power_dbm': rng.choice([-1, 0, 0.5, 1, 2, 2.5]), 'f_min': rng.choice([191.275e12, 191.3e12, 192.3e12]),
+                           'f_max': 196.125e12})
+        # sites where the operator allows few amplifier types (restrictions of the ROADM): the automatic selection then
+        # has to live with a low p_max
+        for r, spec in case['roadms'].items():
+            if rng.random() < 0.6:
+                spec.setdefault('params', {})['restrictions'] = {
+                    'preamp_variety_list': rng.choice([['std_high_gain'], ['std_low_gain'], ['std_medium_gain', 'std_high_gain'], []]),
+                    'booster_variety_list': rng.choice([['std_medium_gain'], ['std_high_gain'], ['std_low_gain', 'high_power'], []])}
         for ln in case['lines']:
             amps = [e for e in ln['els'] if e['k'] == 'A']
             if not amps:
@@ -128,7 +136,7 @@ def gen_case(rng, kind='valid'):
             for i, a in enumerate(amps):
                 op = a.setdefault('op', {})
                 if i % 2 == 0:
-                    op['in_voa'] = rng.choice([0.5, 1, 2])
+                    op['in_voa'] = rng.choice([0.5, 1, 2, 2.5, 3])
                     op.pop('gain_target', None)
                     a['variety'] = rng.choice(['std_medium_gain', 'std_low_gain', ''])
                 else:
